@@ -67,8 +67,9 @@ impl FunctionMarkupPass {
                 let inst = With::new(JumpLinkType::Jal, info.clone());
                 let rd = With::new(Register::X0, info.clone());
                 let name = With::new(LabelString::new("__return__"), info.clone());
+                // (the jump keeps the location of the return it replaces)
                 let new_node =
-                    ParserNode::new_jump_link(inst, rd, name, prev_ret.node().token().clone());
+                    ParserNode::new_jump_link(inst, rd, name, found_ret.node().token().clone());
                 #[allow(unused_must_use)]
                 found_ret.set_node(new_node);
             }
